@@ -76,8 +76,10 @@ def build_jobs(groups, start, per_job):
     jobs = []
     for g in groups:
         cases = g['cases']
-        for k in range(0, len(cases), per_job):
-            jobs.append({'id': start + len(jobs), 'part': 'b', 'eng': g['eng'], 'elems': g['elems'], 'decl': g['decl'], 'cases': cases[k : k + per_job]})
+        # a real database per shelve case: ~0.1 s each
+        n = min(per_job, 20) if cases and cases[0]['mode'] == 'shelve' else per_job
+        for k in range(0, len(cases), n):
+            jobs.append({'id': start + len(jobs), 'part': 'b', 'eng': g['eng'], 'elems': g['elems'], 'decl': g['decl'], 'cases': cases[k : k + n]})
     return jobs
 
 
@@ -168,8 +170,8 @@ def require_nonvacuous(stats, parts):
 
 MUTANTS = {
     'a': ['ge_ignores_impl', 'newer_or_equal', 'lt_is_le'],
-    'b': ['diff_substring', 'diff_absent_ok', 'diff_latest_only', 'diff_first_only', 'values_ignored', 'asp_gets_targets', 'owner_by_task', 'current_skips_values'],
-    'h': ['versions_forget_first'],
+    'b': ['diff_substring', 'diff_absent_ok', 'diff_latest_only', 'diff_first_only', 'values_ignored', 'asp_gets_targets', 'owner_by_task', 'current_skips_values', 'current_reports_empty_sv'],
+    'h': ['versions_forget_first', 'versions_sv_gets_value'],
 }
 
 
@@ -229,8 +231,8 @@ def run(pid, tier, seed, replay=None):
     chk.assumptions = [
         'version fields 0..2 for the order; engines of <= 3 algorithms (task / analysis), 1-2 state vectors, 1-2 values; 0-2 known targets',
         'an analysis whose version changed carries the all-targets marker whatever the target list is (statement: "the all-targets marker for analyses"); with no known target no task may be queued',
-        'persisted tables are supplied directly (quick, thorough) and through a real shelve database opened without its socket server (thorough); db.targets() is an environment stub in direct mode',
-        'state vectors without values and algorithms without state vectors are outside the enumerated domain',
+        'persisted tables are supplied directly and through a real shelve database opened without its socket server (a small part in quick, the full histories in thorough); db.targets() is an environment stub in direct mode',
+        'a state vector that declares no values is not a versioned element (version.current must not report it, nothing can persist it); algorithms without state vectors are outside the enumerated domain',
     ]
     return chk.finish(
         'inputs are enumerated by TLC (Version_Gen): every pair of versions over (0..2)^3 for a set of pairs of dawgie.Version subclasses; every build case of the plans '
